@@ -64,7 +64,16 @@ def number(rng, bits=8):
 
 
 def data_stmt(rng):
-    k = rng.below(6)
+    k = rng.below(8)
+    if k == 6:
+        # the wider and rarer data directives
+        d = rng.pick([".dc64", ".dq", ".dc16", ".dc8", ".dl", ".dd", ".varuint", ".dc32"])
+        bits = {".dc64": 32, ".dq": 32, ".dc16": 16, ".dc8": 8, ".dl": 32, ".dd": 32, ".varuint": 16, ".dc32": 32}[d]
+        if d in (".dc64", ".dq") and rng.chance(1, 2):
+            return ["%s 0x%016x" % (d, rng.u64())]
+        return ["%s %s" % (d, ", ".join(number(rng, bits) for _ in range(rng.range(1, 3))))]
+    if k == 7:
+        return [".resb %d" % rng.range(1, 9)] + [".db " + ", ".join(number(rng) for _ in range(rng.range(1, 4)))]
     if k == 0:
         return [".db " + ", ".join(number(rng) for _ in range(rng.range(1, 8)))]
     if k == 1:
